@@ -47,7 +47,7 @@ for mf in sorted(glob.glob(V+'/seeded/*/meta.json')):
     m=json.load(open(mf))
     rows.append(m)
 out=["# Seeded changes and which checks catch them","",
-"Every entry is a change to reduction that breaks one property while still compiling. `sub1-*` / `sub2-*` were written by fresh sub-agents that saw only the property text and a scratch worktree (two waves); each was confirmed (applies, builds, pinned tests pass, its demonstration fails with and passes without the change) before it was kept. `rev-*` re-introduce the defects repaired on the pinned tree (reverse patch of each `fix:` commit). None of these is ever committed to the repository; to run the registered checks against one: `git -C /repo apply seeded/<id>/patch.diff`, run, `git -C /repo checkout -- .` (or `scripts/mutant.sh <name> <patch> <props...>` for a scratch worktree).","",
+"Every entry is a change to reduction that breaks one property while still compiling. `sub1-*` ... `sub5-*` were written by fresh sub-agents that saw only the property text and a scratch worktree (five waves); each was confirmed (applies, builds, pinned tests pass, its demonstration fails with and passes without the change) before it was kept. `rev-*` re-introduce the defects repaired on the pinned tree (reverse patch of each `fix:` commit). None of these is ever committed to the repository; to run the registered checks against one: `git -C /repo apply seeded/<id>/patch.diff`, run, `git -C /repo checkout -- .` (or `scripts/mutant.sh <name> <patch> <props...>` for a scratch worktree).","",
 "| id | property | change | result | checks |","|---|---|---|---|---|"]
 n={'caught':0,'deep':0,'missed':0,'other':0}
 for m in rows:
